@@ -133,6 +133,11 @@ func (x *Exec) execInstr(st *State, in ssa.Instruction) error {
 			x.unsupported("%v", err)
 		}
 		dk := mapDomKey(mt)
+		if x.absMaps[dk] {
+			x.havocAbstractMap(st, mt)
+			x.setReg(in, scalar(r, in.Type()))
+			return nil
+		}
 		dh := x.heapGet(st, dk, arr(SInt, arr(ks, SBool)))
 		x.heapSet(st, dk, tStore(dh, r, constArr(arr(ks, SBool), tFalse)))
 		lh := x.heapGet(st, mapLenKey(mt), arr(SInt, SInt))
